@@ -8,6 +8,7 @@ import (
 
 func TestReplay(t *testing.T) {
 	verif.ReplayMain(map[string]func(){
+		"HarnessBatchContexts":              HarnessBatchContexts,
 		"HarnessClientCancel":               HarnessClientCancel,
 		"HarnessHTTPCancel":                 HarnessHTTPCancel,
 		"HarnessManySubscriptions":          HarnessManySubscriptions,
